@@ -41,7 +41,6 @@ L = frozenset
 AXIOMS = {
     "reset_initial_conditions": ([("CO2ref", "#550", L("<"))], "A-3"),
     "compute_variables": ([("CO2ref", "#550", L("<"))], "A-3"),
-    "check_groundwater_table": ([("z_gw", "#0", L("=>"))], "A-4"),
     "read_groundwater_table": ([("len(df)", "#1", L("=>"))], "A-4"),
 }
 NONEMPTY_LOOPS = {"compute_variables": ({"range(param_struct.NCrops)"}, "A-9")}
